@@ -91,6 +91,22 @@ theorem openParts_filter (pre : List Part) (r : Req) :
   rw [List.filter_filter]
   simp
 
+/-- once a reply is complete the request has no open part: its key can be used again from scratch -/
+theorem openParts_after_reply (pre : List Part) (xid t : Nat) (init : List (List Nat)) (last : List Nat) :
+    openParts (pre ++ mkReply xid t init last) (xid, t) = [] := by
+  unfold mkReply
+  rw [← List.append_assoc, openParts_snoc]
+  simp [Part.req]
+
+/-- parts of other requests do not change a request's open parts -/
+theorem openParts_append_other (pre mid : List Part) (r : Req) (h : ∀ p ∈ mid, p.req ≠ r) :
+    openParts (pre ++ mid) r = openParts pre r := by
+  unfold openParts
+  have : mid.filter (fun q => q.req == r) = [] := by
+    rw [List.filter_eq_nil_iff]
+    intro p hp; simpa using h p hp
+  rw [List.filter_append, this, List.append_nil]
+
 /-! ### the model tracks the specification -/
 
 def Out.ofOption : Option Event → Out
